@@ -10,7 +10,7 @@
    discarding the space (Initial / Handshake only); close().  [rcvd s] is the ghost set of recorded packet
    numbers, [mem x q] membership in a range set (proofs/RangeSetP.v). *)
 From AQ Require Import lib.Base model.Codec model.Varint model.RangeSet model.AckFrame gen.C12Consts model.AckQueue
-  proofs.RangeSetP proofs.AckQueueP proofs.AckQueueP2.
+  proofs.RangeSetP proofs.AckQueueP proofs.AckQueueP2 proofs.AckQueueP3.
 
 (* ack_sound, queue: the ack_queue only ever holds recorded packet numbers *)
 Theorem ack_sound_queue : forall a s, reach a s -> forall x, mem x (aq s) -> In x (rcvd s).
@@ -123,9 +123,38 @@ Theorem prune_uncovered_refuted : exists ops x, reach_run (init true) ops /\
 Proof. exact prune_uncovered_refuted_l. Qed.
 Print Assumptions prune_uncovered_refuted.
 
-(* REFUTED: ack_timely without the premise "at most MAX_ACK_RANGES ranges at the send".  Witness cap_witness
-   (corpus/C12/cap-drops-owed.json): packet 0 is owed; 33 more packets with gaps arrive before the send; the writer
-   keeps the 32 highest ranges: 0 is still owed, in no frame, not queued any more, no timer armed. *)
+(* ---- the range cap.  CAP_ACK_NOW / PACING_LE are probed from the source by tools/gen/c12_consts.py: true on a tree with
+   docs/C12-fix-2.patch (once MAX_ACK_RANGES ranges are queued a pending ACK is due at once: ack_at = min(ack_at, now);
+   pacing is skipped when ack_at <= now), false otherwise -- then the two theorems below hold vacuously and the open
+   finding C12-F2 applies.
+   [reach_d dmax a s] (proofs/AckQueueP3.v), the sans-IO driver discipline: as [reach], monotone clock, d <= dmax,
+   encodable delay, any op other than a received packet at any time (sends with ANY room and pacer verdict), and every
+   received packet is followed -- before the next received packet of the space -- by a datagrams_to_send whose packet
+   has room for the ACK frame (ack_capacity (cap_ranges queue) <= room), whatever the pacer says.  NO premise on the
+   number of ranges. *)
+
+(* ack_timely_cap: under the discipline an owed packet is never forgotten by the cap: at every rest point it is still
+   queued, its timer is armed within the bound and fewer than MAX_ACK_RANGES ranges are queued (the range-count premise
+   of ack_timely_pending / ack_timely_send is discharged) *)
+Theorem ack_timely_cap : forall dmax a s L t, CAP_ACK_NOW = true -> PACING_LE = true -> reach_d dmax a s ->
+  closing s = false -> disc s = false -> In (L, t) (owed s) ->
+  mem L (aq s) /\ (exists x, ack_at s = Some x /\ x <= t + dmax) /\ Zlen (aq s) <= MAX_ACK_RANGES - 1.
+Proof. exact ack_timely_cap_l. Qed.
+Print Assumptions ack_timely_cap.
+
+(* ... and the send at u >= ack_at with room reports the whole queue, covering every owed packet; no pacer premise *)
+Theorem ack_timely_cap_send : forall dmax s L t0 x u delay room blocked, CAP_ACK_NOW = true -> PACING_LE = true ->
+  reach_d dmax true s -> closing s = false -> In (L, t0) (owed s) -> ack_at s = Some x -> x <= u -> clk s <= u ->
+  ack_capacity (aq s) <= room -> 0 <= delay < 2 ^ 62 ->
+  exists bytes s', send s u delay room blocked = (SFrame bytes (aq s), s') /\ mem L (aq s) /\
+    owed s' = [] /\ ack_at s' = None.
+Proof. exact ack_timely_cap_send_l. Qed.
+Print Assumptions ack_timely_cap_send.
+
+(* REFUTED (residual, holds for both values of the flags): ack_timely with neither the range-count premise nor the
+   discipline.  Witness cap_witness (corpus/C12/cap-drops-owed.json): packet 0 is owed; 33 more packets with gaps are
+   received with NO datagrams_to_send in between; the writer keeps the 32 highest ranges: 0 is still owed, in no frame,
+   not queued any more, no timer armed. *)
 Theorem ack_timely_cap_refuted : exists ops L t, reach_run (init true) ops /\
   let s := run (init true) ops in
   In (L, t) (owed s) /\ closing s = false /\ ack_at s = None /\ ~ mem L (aq s) /\
